@@ -22,14 +22,20 @@ import asyncio
 import inspect
 import warnings
 
-RULE = ("part 1 exhaustive: (protocol set, takeover holder, AirPlay-video flag, member); non-trivial = the call "
-        "is not served by the first connected protocol of the plain priority list (a holder wins or is skipped, "
-        "a higher-priority protocol merely inherits the default, Companion-first for power, or nobody implements "
-        "it). part 2: random histories of takeover/release on the real facade, >=30% of the takeovers failing by "
-        "construction (interface already held or listed twice); non-trivial = history with at least one failing "
-        "takeover and one release; distinct = (set, op list)")
+RULE = ("part 1 exhaustive over scenarios = (services in the configuration, Companion credentials, AirPlay video / "
+        "MRP-tunnel / unified-RAOP flags, which queued SetupData answer connect() with False): the 31 native sets, all 180 "
+        "(set-up set, failing proper subset) pairs, 48 tunnel/unified configurations each with every single failing "
+        "connect, plus seeded random ones; x {no holder, each of 5 holders} x every member, then again after each connected "
+        "protocol published volume/output devices/focus/play state with exactly the published values as arguments (twice, "
+        "and under a takeover); non-trivial = the call is not served by the first connected protocol of the plain "
+        "priority list. part 2: random histories of takeover/release (>=30% failing takeovers by construction) interleaved "
+        "with state updates; non-trivial = history with at least one failing takeover and one release; "
+        "distinct = (scenario, holder, publisher, member) resp. (scenario, op list)")
 ASSUMPTIONS = [
-    "SetupData.connect/close are replaced by no-ops; interface instances are the real ones from setup(), never connected",
+    "SetupData.connect/close are replaced by coroutines answering True/False; interface instances are the real ones from "
+    "the real set-up loop of pyatv.connect (native setup(), MRP over the AirPlay tunnel, RAOP set up by AirPlay), never connected",
+    "the connected set is the set of protocols whose SetupData.connect answered True (first SetupData per protocol wins, as in "
+    "FacadeAppleTV.connect); a connect() that raises aborts pyatv.connect and leaves no usable device object: not enumerated",
     "overriding members are replaced on the protocol classes by recorders for the duration of the run (restored afterwards)",
     "FacadeStream.play_url refuses with NotSupportedError while the PlayUrl feature is not Available (feature gate, "
     "facade.py:356): when the gate is closed the call is compared with the model only, the oracle does not judge it",
@@ -57,47 +63,146 @@ def set_bits(S):
     return "".join("1" if p in S else "0" for p in TEXT_ORDER)
 
 
+# --- scenarios: how the device object came to be connected --------------------------------
+def scenario(services=None, fail=(), **kw):
+    """A device configuration (tools/gen/c01.default_spec) plus the positions, in the order
+    pyatv.connect queues the SetupData, whose `connect()` answers False."""
+    from tools.gen.c01 import default_spec
+
+    sc = default_spec(**kw)
+    if services is not None:
+        sc["services"] = [p for p in TEXT_ORDER if p in services]
+    sc["fail"] = sorted(fail)
+    return sc
+
+
+def scen_key(sc):
+    return "svc=%s;cc=%d;v=%d;tun=%d;uni=%d;fail=%s" % (
+        "+".join(sc["services"]), sc["companion_creds"], sc["video"], sc["tunnel"], sc["unified"],
+        ".".join(map(str, sc["fail"])) or "-")
+
+
+def native_scenarios():
+    """the 31 service sets, every protocol set up natively and connecting"""
+    return [scenario(S) for S in subsets()]
+
+
+def failing_connect_scenarios():
+    """every set U of set-up protocols x every proper subset F of them whose connect() returns False"""
+    out = []
+    for U in subsets():
+        for bits in range(1, 1 << len(U)):
+            fail = [i for i in range(len(U)) if bits & (1 << i)]
+            if len(fail) < len(U):
+                # queue order of native set-ups = order of PROTOCOLS restricted to U; resolved by the World
+                out.append(scenario(U, fail=fail))
+    return out
+
+
+def path_configs():
+    """MRP over the AirPlay tunnel and RAOP set up by AirPlay, with the other services present,
+    absent or (Companion) present without credentials."""
+    out = []
+    for tunnel, unified in ((True, False), (False, True), (True, True)):
+        for mrp in (False, True):
+            for comp in ("absent", "nocreds", "creds"):
+                for dmap in (False, True):
+                    for raop in (False, True):
+                        if unified and raop:
+                            continue
+                        svc = ["AirPlay"] + (["MRP"] if mrp else []) + (["DMAP"] if dmap else []) \
+                            + (["RAOP"] if raop else []) + (["Companion"] if comp != "absent" else [])
+                        out.append(dict(services=svc, tunnel=tunnel, unified=unified, companion_creds=(comp == "creds")))
+    return out
+
+
+def all_scenarios(patches, rng=None, extra=0):
+    """native (31) + failing connects (180) + set-up paths: all connecting and every single
+    SetupData of the queue failing; `extra` random ones with several failures."""
+    out = native_scenarios()
+    out += [scenario(S, video=False) for S in subsets() if "AirPlay" in S]
+    out += failing_connect_scenarios()
+    for cfg in path_configs():
+        n = len(World(patches, scenario(**cfg)).built.queue)
+        out.append(scenario(**cfg))
+        out += [scenario(fail=[k], **cfg) for k in range(n)]
+    for _ in range(extra):
+        cfg = dict(rng.choice(path_configs()))
+        cfg["video"] = rng.chance(0.7)
+        n = len(World(patches, scenario(**cfg)).built.queue)
+        fail = [k for k in range(n) if rng.chance(0.35)]
+        out.append(scenario(fail=fail, **cfg))
+    seen, uniq = set(), []
+    for sc in out:
+        if scen_key(sc) not in seen:
+            seen.add(scen_key(sc))
+            uniq.append(sc)
+    return uniq
+
+
 # --- recorders ----------------------------------------------------------------------------
 class Patches:
     """Replace every overriding public member on the protocol classes by a recorder."""
 
     def __init__(self, loop):
         from pyatv import interface
-        from tools.gen.c01 import build_world, defining_class, public_members, underlying
+        from tools.gen.c01 import build_world, public_members
 
         self.loop = loop
         self.log = []
         self.owner = {}          # id(instance) -> protocol name (current world)
         self.saved = []
-        self.oracle_impl = {}    # (proto, iface, member) -> bool   (oracle's own criterion)
+        self.genuine = {}        # (class, member) -> bool: the oracle's own "actually implements"
+        self.done = set()
         self.members = {}        # iface name -> [member names]
         self.bases = {}
-        _atv, setups, _order = build_world(loop)
-        self.iface_classes = list(_atv._interfaces.keys())
+        built = build_world(loop)
+        self.iface_classes = list(built.atv._interfaces.keys())
         for base in self.iface_classes:
             self.bases[base.__name__] = base
             if base is interface.Features:
                 continue
             self.members[base.__name__] = public_members(base)
-        for proto, sd in setups.items():
+        self.ensure(built)
+
+    def ensure(self, built):
+        """Patch the classes of every instance the configuration set up (any set-up path)."""
+        from tools.gen.c01 import defining_class, underlying
+
+        for _origin, sd in built.queue:
             for base, inst in sd.interfaces.items():
-                if base is interface.Features or base.__name__ not in self.members:
-                    continue
                 cls = type(inst)
+                if base.__name__ not in self.members or (cls, base) in self.done:
+                    continue
+                self.done.add((cls, base))
                 for name in self.members[base.__name__]:
                     d = defining_class(cls, name)
                     overridden = d is not None and d is not base
-                    genuine = overridden and not self._same_body(d.__dict__[name], base.__dict__[name], underlying)
-                    self.oracle_impl[(proto.name, base.__name__, name)] = genuine
+                    self.genuine[(cls, name)] = overridden and not self._same_body(
+                        d.__dict__[name], base.__dict__[name], underlying)
                     if overridden:
                         self._patch(cls, base, name, underlying)
 
-    @staticmethod
-    def _same_body(mine, default, underlying):
+    _STUB_OPS = {"RESUME", "RETURN_GENERATOR", "POP_TOP", "NOP", "PUSH_NULL", "LOAD_GLOBAL", "LOAD_ATTR", "LOAD_CONST",
+                 "KW_NAMES", "PRECALL", "CALL", "RAISE_VARARGS", "CALL_INTRINSIC_1", "RERAISE", "CLEANUP_THROW", "COPY",
+                 "COPY_FREE_VARS", "CACHE"}
+
+    @classmethod
+    def _same_body(cls, mine, default, underlying):
+        """Not an implementation: a byte-for-byte copy of the interface default, or a body that
+        does nothing but raise `exceptions.NotSupportedError(<constants>)`.  Anything this
+        analysis does not recognise counts as a genuine implementation."""
+        import dis
+
         a, b = getattr(underlying(mine), "__code__", None), getattr(underlying(default), "__code__", None)
         if a is None or b is None:
             return False
-        return a.co_code == b.co_code and a.co_names == b.co_names   # docstrings live in co_consts: ignored
+        if a.co_code == b.co_code and a.co_names == b.co_names:   # docstrings live in co_consts: ignored
+            return True
+        ins = list(dis.get_instructions(a))
+        names = {i.argval for i in ins if i.opname in ("LOAD_GLOBAL", "LOAD_ATTR")}
+        return (all(i.opname in cls._STUB_OPS for i in ins) and any(i.opname == "RAISE_VARARGS" for i in ins)
+                and "NotSupportedError" in names and names <= {"exceptions", "NotSupportedError"})
 
     def _patch(self, cls, base, name, underlying):
         if any(c is cls and n == name for c, n, _h, _o in self.saved):
@@ -135,48 +240,109 @@ async def _connected():
     return True
 
 
-class World:
-    """A real FacadeAppleTV connected (without network) to the protocols in `S`."""
+async def _refused():
+    return False
 
-    def __init__(self, patches, S, video=True):
+
+class World:
+    """A real FacadeAppleTV taken through pyatv.connect's own set-up loop for a configuration
+    and then `connect()`ed without network: SetupData.connect answers True, or False at the
+    queue positions listed in the scenario.  `S` = the protocols the device is connected with."""
+
+    def __init__(self, patches, sc):
         from pyatv.const import Protocol
-        from tools.gen.c01 import AIRPLAY_NO_VIDEO_FEATURES, AIRPLAY_VIDEO_FEATURES, build_world
+        from tools.gen.c01 import build_world
 
         self.p = patches
-        self.S = list(S)
-        self.video = video
-        self.atv, setups, order = build_world(patches.loop, AIRPLAY_VIDEO_FEATURES if video else AIRPLAY_NO_VIDEO_FEATURES)
-        self.setups = setups
-        patches.owner.clear()
-        for proto in order:
-            if proto.name not in S:
-                continue
-            sd = setups[proto]
-            for inst in sd.interfaces.values():
-                patches.owner[id(inst)] = proto.name
-            self.atv.add_protocol(sd._replace(connect=_connected, close=lambda: set()))
-        patches.loop.run_until_complete(self.atv.connect())
+        self.sc = sc
+        self.video = sc["video"]
+        spec = {k: v for k, v in sc.items() if k != "fail"}
+        self.built = build_world(patches.loop, spec)
+        patches.ensure(self.built)
+        self.atv = self.built.atv
         self.Protocol = Protocol
+        patches.owner.clear()
+        self.connected = {}      # protocol name -> SetupData that connected (first one wins)
+        self.fail = [k for k in sc["fail"] if k < len(self.built.queue)]
+        for k, (_origin, sd) in enumerate(self.built.queue):
+            ok = k not in self.fail
+            name = sd.protocol.name
+            mine = ok and name not in self.connected
+            if mine:
+                self.connected[name] = sd
+            for inst in sd.interfaces.values():
+                patches.owner[id(inst)] = name if mine else f"not-connected:{name}#{k}"
+            self.atv.add_protocol(sd._replace(connect=_connected if ok else _refused, close=lambda: set()))
+        self.S = [p for p in TEXT_ORDER if p in self.connected]
+        self.connect_error = None
+        try:
+            patches.loop.run_until_complete(self.atv.connect())
+        except Exception as e:   # e.g. nothing to connect to
+            self.connect_error = type(e).__name__
         self.relayers = {b.__name__: self.atv._interfaces[b] for b in patches.iface_classes}
+        self.env = None
+
+    def genuine(self, proto, iface, name):
+        sd = self.connected.get(proto)
+        inst = sd.interfaces.get(self.p.bases[iface]) if sd else None
+        return inst is not None and self.p.genuine.get((type(inst), name), False)
+
+    def features_instance(self, proto):
+        from pyatv import interface
+
+        return self.connected[proto].interfaces[interface.Features]
+
+    # -- environment activity ------------------------------------------------------------
+    def publish(self, proto, k):
+        """Protocol `proto` reports volume, output devices, keyboard focus and play state on the
+        internal state dispatcher; later calls reuse exactly these values as arguments."""
+        from pyatv import const, interface
+        from pyatv.core import ProtocolStateDispatcher, UpdatedState
+
+        env = {"volume": 20.0 + (7 * k) % 70, "device": "dev-%d" % k, "position": 3 + k,
+               "shuffle": const.ShuffleState.Songs, "repeat": const.RepeatState.All, "publisher": proto}
+        disp = ProtocolStateDispatcher(self.Protocol[proto], self.built.dispatcher)
+
+        async def go():
+            disp.dispatch(UpdatedState.Volume, env["volume"])
+            disp.dispatch(UpdatedState.OutputDevices, [interface.OutputDevice("out", env["device"])])
+            disp.dispatch(UpdatedState.KeyboardFocus, const.KeyboardFocusState.Focused)
+            disp.dispatch(UpdatedState.Playing, interface.Playing(
+                const.MediaType.Music, const.DeviceState.Playing, title="t", position=env["position"],
+                total_time=100, shuffle=env["shuffle"], repeat=env["repeat"]))
+            for _ in range(3):
+                await asyncio.sleep(0)
+
+        try:
+            self.p.loop.run_until_complete(go())
+        except Exception:
+            pass
+        self.env = env
+        return env
 
     # -- observation -------------------------------------------------------------------
     def _args(self, iface, name):
         import enum
 
+        env = self.env
         fn = self.p.bases[iface].__dict__[name]
         args = []
         for prm in list(inspect.signature(fn).parameters.values())[1:]:
+            if prm.kind == prm.VAR_POSITIONAL and env is not None:
+                args.append(env["device"])
+                continue
             if prm.kind in (prm.VAR_POSITIONAL, prm.VAR_KEYWORD) or prm.default is not prm.empty:
                 continue
             ann = prm.annotation
             if isinstance(ann, type) and issubclass(ann, enum.Enum):
-                args.append(list(ann)[0])
+                reuse = [v for v in (env or {}).values() if isinstance(v, ann)]
+                args.append(reuse[0] if reuse else list(ann)[0])
             elif ann is float:
-                args.append(10.0)
+                args.append(env["volume"] if env else 10.0)
             elif ann is str or not isinstance(ann, type):
-                args.append("x")
+                args.append(env["device"] if env else "x")
             else:
-                args.append(1)
+                args.append(env["position"] if env else 1)
         return args
 
     async def _call(self, iface, name):
@@ -244,32 +410,33 @@ class World:
 
 
 # --- the oracle ---------------------------------------------------------------------------
-def expected(patches, S, holder, iface, name):
+def expected(world, holder, iface, name):
     order = ([holder] if holder else []) + (POWER_ORDER if iface == "Power" else TEXT_ORDER)
     for p in order:
-        if p in S and patches.oracle_impl.get((p, iface, name), False):
+        if p in world.S and world.genuine(p, iface, name):
             return p
     return "!"
 
 
-def judge(ctx, patches, S, holders, observed, case, kind, gate_open):
-    """holders: iface name -> protocol name or None, as the property's history demands;
-    gate_open: callable telling whether the real PlayUrl feature is Available right now."""
+def judge(ctx, world, holders, observed, case, kind):
+    """holders: iface name -> protocol name or None, as the property's history demands."""
     gate = None
+    S = world.S
     for key, got in observed.items():
         iface, name = key.split(".", 1)
-        want = expected(patches, S, holders.get(iface), iface, name)
+        want = expected(world, holders.get(iface), iface, name)
         if key == "Stream.play_url" and got == "!" and want != "!":
             if gate is None:
-                gate = gate_open()
+                gate = world.gate_open()
             if not gate:
                 ctx.note("oracle:play_url-gate-closed-not-judged")
                 continue
         if got != want:
-            ctx.fail(f"{kind}:{key}:{set_bits(S)}:{holders.get(iface) or '-'}", dict(case, member=key),
-                     got, want,
-                     f"{key} with {'+'.join(S)} connected, holder {holders.get(iface) or 'none'}: executed by {got}, "
-                     f"the property demands {want}")
+            how = "" if not case.get("env") else f" after {case['env']['publisher']} reported the values then passed as arguments"
+            ctx.fail(f"{kind}:{key}:{scen_key(world.sc)}:{holders.get(iface) or '-'}" + (":env" if case.get("env") else ""),
+                     dict(case, member=key), got, want,
+                     f"{key} with {'+'.join(S)} connected ({scen_key(world.sc)}), holder {holders.get(iface) or 'none'}{how}: "
+                     f"executed by {got}, the property demands {want}")
 
 
 def parse_table(s):
@@ -282,55 +449,61 @@ def model_view(table_str):
 
 
 # --- part 1 -------------------------------------------------------------------------------
-def static_cases(only=None):
-    cases = []
-    for S in subsets():
-        for video in (True, False):
-            if not video and "AirPlay" not in S:
-                continue
-            for t in [None] + TEXT_ORDER:
-                cases.append((S, t, video))
-    if only is not None:
-        cases = [c for c in cases if c in only]
-    return cases
-
-
-def run_static(ctx, patches, cases):
-    lines, obs = [], []
-    cur = None
-    for S, t, video in cases:
-        if cur is None or (cur.S, cur.video) != (S, video):
-            cur = World(patches, S, video)
-        release = None
-        if t is not None:
-            status, release = cur.takeover(t, list(FACADE_ATTR.keys()))
-            if status != "ok":
-                ctx.disagree({"S": S, "t": t}, status, "ok", where="takeover of all interfaces on a fresh facade")
-                continue
-        table = cur.table()
-        gate = cur.gate_open()
-        if release:
-            release()
-        lines.append(f"table {set_bits(S)} {t or '-'} {1 if video else 0}")
-        obs.append((S, t, video, table, cur, gate))
-    answers = ctx.lean(lines)
-    for (S, t, video, table, _world, _gate), ans in zip(obs, answers):
-        model = model_view(ans)
-        case = {"kind": "call", "S": S, "t": t, "video": video}
+def run_static(ctx, patches, scenarios, full_env):
+    """Every scenario x {no holder, each protocol holding every interface}; then, for every
+    connected protocol as publisher of volume / output devices / focus / play state, every
+    member again with exactly the published values as arguments (twice in a row)."""
+    obs = []
+    for sc in scenarios:
+        world = World(patches, sc)
+        if world.connect_error or not world.S:
+            ctx.note("scenario:nothing-connected")
+            continue
+        handlers = sorted(p.name for p in getattr(world.atv, "_protocol_handlers", {}))
+        if handlers and handlers != sorted(world.S):
+            ctx.disagree({"scenario": sc}, handlers, sorted(world.S), where="connected set (facade _protocol_handlers vs construction)")
+        ctx.note("scenario:" + ("native" if not (sc["tunnel"] or sc["unified"]) else "tunnel/unified")
+                 + ("+failing-connect" if world.fail else ""))
+        rounds = [(t, None) for t in [None] + TEXT_ORDER]
+        pubs = world.S if (full_env or not world.fail) else world.S[:1]
+        for k, pub in enumerate(pubs):
+            rounds.append((None, (pub, k)))
+            rounds.append((None, (pub, k)))                      # the same call a second time
+            rounds.append((TEXT_ORDER[(k + 1) % 5], (pub, k)))   # and while somebody holds a takeover
+        for t, pub in rounds:
+            release = None
+            if pub is not None:
+                world.publish(*pub)
+            if t is not None:
+                status, release = world.takeover(t, list(FACADE_ATTR.keys()))
+                if status != "ok":
+                    ctx.disagree({"scenario": sc, "t": t}, status, "ok", where="takeover of all interfaces")
+                    continue
+            table = world.table()
+            if release:
+                release()
+            env = None if pub is None else {"publisher": pub[0], "volume": world.env["volume"]}
+            obs.append((world, t, env, table))
+    lines = sorted({f"table {set_bits(w.S)} {t or '-'} {1 if w.video else 0}" for w, t, _e, _tb in obs})
+    answers = dict(zip(lines, ctx.lean(lines)))
+    for world, t, env, table in obs:
+        S, sc = world.S, world.sc
+        model = model_view(answers[f"table {set_bits(S)} {t or '-'} {1 if world.video else 0}"])
+        case = {"kind": "call", "scenario": sc, "t": t, "env": env}
         if model != table:
             diff = {k: (table.get(k), model.get(k)) for k in set(table) | set(model) if table.get(k) != model.get(k)}
             ctx.disagree(case, {k: v[0] for k, v in diff.items()}, {k: v[1] for k, v in diff.items()}, where="routing table")
         ctx.validated(len(table))
-        holders = {i: t for i in NINE}
-        judge(ctx, patches, S, holders, table, case, "call", lambda g=_gate: g)
+        judge(ctx, world, {i: t for i in NINE}, table, case, "call")
+        plain = next(p for p in TEXT_ORDER if p in S)
         for key, got in table.items():
-            plain = next(p for p in TEXT_ORDER if p in S)
             nontrivial = got != plain
-            ctx.case([set_bits(S), t, video, key], nontrivial,
-                     sample={"set": S, "holder": t, "video": video, "member": key, "served_by": got}
-                     if nontrivial else None)
+            ctx.case([scen_key(sc), t, env and env["publisher"], key], nontrivial,
+                     sample={"scenario": scen_key(sc), "connected": S, "holder": t, "after_update_by": env and env["publisher"],
+                             "member": key, "served_by": got} if nontrivial and (world.fail or sc["tunnel"]) else None)
             ctx.note("served:" + (got if got in TEXT_ORDER else ("not-supported" if got == "!" else got.split(":")[0])))
         ctx.note("holder:" + (t or "none"))
+        ctx.note("args:" + ("reused-from-state-update" if env else "default"))
 
 
 # --- part 2 -------------------------------------------------------------------------------
@@ -379,10 +552,12 @@ def gen_history(rng, length):
     return ops
 
 
-def run_history(ctx, patches, S, ops, record=True):
-    """Execute on the real facade; returns (lines, observations)."""
-    world = World(patches, S, True)
-    lines = [f"reset {set_bits(S)} 1"]
+def run_history(ctx, patches, sc, ops):
+    """Execute on the real facade; returns (lines, observations).  Every third step some
+    connected protocol publishes state and the calls reuse the published values."""
+    world = World(patches, sc)
+    S = world.S
+    lines = [f"reset {set_bits(S)} {1 if world.video else 0}"]
     obs = [("ok", None, None, None)]
     closures = []
     tracked = {}          # oracle's own view of who holds what
@@ -390,6 +565,8 @@ def run_history(ctx, patches, S, ops, record=True):
     nfail = nrel = 0
     for step, op in enumerate(ops):
         before = world.holders()
+        if step % 3 == 1 and S:
+            world.publish(S[step % len(S)], step)
         if op[0] == "takeover":
             _, proto, lst = op
             status, closure = world.takeover(proto, lst)
@@ -406,7 +583,7 @@ def run_history(ctx, patches, S, ops, record=True):
                 head = status
                 nfail += 1
                 if status == "invalid" and world.holders() != before:
-                    ctx.fail("history:rollback", {"kind": "history", "S": S, "ops": ops, "step": step},
+                    ctx.fail("history:rollback", {"kind": "history", "scenario": sc, "ops": ops, "step": step},
                              world.holders(), before,
                              f"failing takeover {op} did not roll back: holders {before} -> {world.holders()}")
         else:
@@ -424,11 +601,12 @@ def run_history(ctx, patches, S, ops, record=True):
         table = world.table()
         obs.append((head, holders, table, dict(tracked)))
         multi = {i: h for i, h in holders.items() if "+" in h}
-        case = {"kind": "history", "S": S, "ops": ops, "step": step}
+        case = {"kind": "history", "scenario": sc, "ops": ops, "step": step,
+                "env": world.env and {"publisher": world.env["publisher"], "volume": world.env["volume"]}}
         if multi:
             ctx.fail("history:two-holders", case, multi, "at most one holder", f"after {op}: {multi}")
-        judge(ctx, patches, S, {i: tracked.get(i) for i in NINE}, table, case, "history", world.gate_open)
-    return lines, obs, nfail, nrel
+        judge(ctx, world, {i: tracked.get(i) for i in NINE}, table, case, "history")
+    return lines, obs, nfail, nrel, S
 
 
 def compare_history(ctx, S, ops, obs, answers):
@@ -455,10 +633,14 @@ def run(ctx, only_static=None, only_history=None):
     asyncio.set_event_loop(loop)
     patches = Patches(loop)
     try:
+        rng = ctx.rng.fork("scenarios")
         if only_history is None:
-            run_static(ctx, patches, static_cases(only_static))
-            if only_static is None:
+            if only_static is not None:
+                scenarios = only_static
+            else:
+                scenarios = all_scenarios(patches, rng, extra=ctx.scale(40, 400))
                 ctx.exhaustive = True
+            run_static(ctx, patches, scenarios, full_env=ctx.thorough or only_static is not None)
         if only_static is None:
             if only_history is not None:
                 hist = only_history
@@ -466,14 +648,14 @@ def run(ctx, only_static=None, only_history=None):
                 rng = ctx.rng.fork("histories")
                 n = ctx.scale(40, 160)
                 maxlen = ctx.scale(12, 40)
-                sets = subsets()
+                pool = all_scenarios(patches)
                 hist = []
                 for k in range(n):
-                    S = sets[-1] if k % 5 == 0 else rng.choice(sets)
-                    hist.append((S, gen_history(rng.fork(k), rng.randint(4, maxlen))))
+                    sc = pool[30] if k % 5 == 0 else (rng.choice(pool[:31]) if k % 5 < 3 else rng.choice(pool))
+                    hist.append((sc, gen_history(rng.fork(k), rng.randint(4, maxlen))))
             lines, spans = [], []
-            for S, ops in hist:
-                l, obs, nfail, nrel = run_history(ctx, patches, S, ops)
+            for sc, ops in hist:
+                l, obs, nfail, nrel, S = run_history(ctx, patches, sc, ops)
                 spans.append((S, ops, obs, len(lines), len(l)))
                 lines += l
                 ntk = sum(1 for o in ops if o[0] == "takeover")
@@ -481,8 +663,8 @@ def run(ctx, only_static=None, only_history=None):
                 ctx.note("history:failing-takeovers", nfail)
                 ctx.note("history:releases", nrel)
                 ctx.note("history:len:%d" % (10 * (len(ops) // 10)))
-                ctx.case([set_bits(S), ops], nfail > 0 and nrel > 0,
-                         sample={"set": S, "ops": ops[:6], "failing_takeovers": nfail, "releases": nrel})
+                ctx.case([scen_key(sc), ops], nfail > 0 and nrel > 0,
+                         sample={"scenario": scen_key(sc), "connected": S, "ops": ops[:6], "failing_takeovers": nfail, "releases": nrel})
             answers = ctx.lean(lines)
             for S, ops, obs, start, n in spans:
                 compare_history(ctx, S, ops, obs, answers[start:start + n])
@@ -499,9 +681,9 @@ def replay(ctx, failure):
     c2 = type(ctx)(ctx.prop, ctx.tier, ctx.seed, ctx.driver.driver_rel)
     if case.get("kind") == "history":
         ops = case["ops"][: case["step"] + 1]
-        run(c2, only_history=[(case["S"], ops)])
+        run(c2, only_history=[(case["scenario"], ops)])
     else:
-        run(c2, only_static=[(case["S"], case["t"], case["video"])])
+        run(c2, only_static=[case["scenario"]])
     return bool(c2.failures)
 
 
